@@ -414,7 +414,7 @@ inductive Res (α : Type) where
   | err (msg : String)
   | crash
   | fuel
-  deriving Repr
+  deriving Repr, DecidableEq
 
 /-- Go: the outer `for i := 1; i < len(ranges); i++` loop; `pending` is `ranges[i:]` (new ranges
 are appended to it). -/
